@@ -47,6 +47,8 @@ class Ctx:
     def __init__(self, feas_timeout_ms=3000):
         self.assumptions = []       # task-level hypotheses (contract precondition, ghost axioms)
         self.pc = []                # path condition of the current path
+        self.epoch = 0              # number of closed scopes on this path (part of the cache keys)
+        self._def_facts = set()
         self.trace = []
         self.prefix = []
         self.pending = []
@@ -94,8 +96,8 @@ class Ctx:
             # sign facts that survive when the definition is abstracted away (stage 1 of discharge)
             if z3.is_mul(t):
                 fs = t.children()
-                self.assumptions.append(z3.Implies(z3.And(*[f >= 0 for f in fs]), c >= 0))
-                self.assumptions.append(z3.Implies(z3.And(*[f >= 1 for f in fs]), c >= 1))
+                self._assume_def(z3.Implies(z3.And(*[f >= 0 for f in fs]), c >= 0))
+                self._assume_def(z3.Implies(z3.And(*[f >= 1 for f in fs]), c >= 1))
             self._defs[key] = c
         return c
 
@@ -114,7 +116,7 @@ class Ctx:
         if z3.is_int_value(t) or z3.is_const(t):
             return t
         cands = self.ghost.get("canon", [])
-        key = ("canon", t.sexpr(), len(self.pc), len(self.assumptions))
+        key = ("canon", t.sexpr(), len(self.pc), len(self.assumptions), self.epoch)
         if key in self._defs:
             return self._defs[key]
         res = t
@@ -144,8 +146,8 @@ class Ctx:
         hit = self._defs.get(key)
         if hit is None:
             q, r = self.fresh("q"), self.fresh("r")
-            self.assumptions.append(z3.Implies(f3 > 0, z3.And(q == t3 / f3, r == t3 % f3, t3 == q * f3 + r,
-                                                              r >= 0, r < f3)))
+            self._assume_def(z3.Implies(f3 > 0, z3.And(q == t3 / f3, r == t3 % f3, t3 == q * f3 + r,
+                                                        r >= 0, r < f3)))
             hit = (q, r)
             self._defs[key] = hit
         return hit
@@ -157,6 +159,8 @@ class Ctx:
         from . import vals as _v
         _v._DEFINER[0] = self.define
         self.pc = []
+        self.epoch = 0
+        self._def_facts = set()
         self.trace = []
         self.prefix = list(prefix)
         self._fresh = {}
@@ -175,6 +179,36 @@ class Ctx:
         if f is True:
             return
         self.pc.append(to_z3(f))
+
+    def _assume_def(self, f):
+        """a fact that characterises a fresh name (valid on its own, whatever scope it is stated in)"""
+        self.assumptions.append(f)
+        self._def_facts.add(f.get_id())
+
+    def scoped(self, cond):
+        """'for an arbitrary x with cond': a block whose path condition holds cond only inside the block.  What the block
+        assumes is kept as cond -> fact; on an exception the scope stays open (the exception IS raised under cond)."""
+        ctx = self
+
+        class _Scope:
+            def __enter__(self_):
+                self_.npc, self_.nas = len(ctx.pc), len(ctx.assumptions)
+                ctx.add_pc(cond)
+                return self_
+
+            def __exit__(self_, et, ev, tb):
+                if et is not None:
+                    return False
+                inner = ctx.pc[self_.npc:]
+                new_as = ctx.assumptions[self_.nas:]
+                del ctx.assumptions[self_.nas:]
+                del ctx.pc[self_.npc:]
+                ctx.epoch += 1
+                guard = z3.And(*inner) if len(inner) > 1 else (inner[0] if inner else z3.BoolVal(True))
+                for a in new_as:
+                    ctx.assumptions.append(a if a.get_id() in ctx._def_facts else z3.Implies(guard, a))
+                return False
+        return _Scope()
 
     def _check(self, extra, full=False):
         """Satisfiability of the path (+extra).  By default the definitions of named products are left out: the
@@ -236,7 +270,7 @@ class Ctx:
         c = as_const(cond)
         if c is True or c is False:
             return c
-        key = (tuple(self.trace), len(self.pc))
+        key = (tuple(self.trace), len(self.pc), self.epoch)
         i = len(self.trace)
         ft = self._feas_cache.get((key, "t"))
         if ft is None:
